@@ -17,7 +17,15 @@ def make_flow(fn, fx, extra_names=()):
         c = t.get("callee") or ""
         if c.startswith(("core::", "alloc::", "std::")):
             return True
-        return n in extra_names
+        if n in extra_names:
+            # a helper of the workspace that hands a collection on: as a method of the translation state it takes the collection second
+            a = t.get("args") or []
+            if len(a) > 1 and a[0].get("pl") and not a[0]["pl"]["p"]:
+                ty0 = fn.f["locals"][a[0]["pl"]["l"]]["ty"]
+                if ty0.startswith("&") and "State" in ty0:
+                    return 1
+            return True
+        return False
     return Flow(fn, extra_pass=p, only_extra=True)
 
 
